@@ -5,6 +5,7 @@ import (
 	"flag"
 	"fmt"
 	"os"
+	"runtime/debug"
 	"sync"
 	"time"
 )
@@ -65,6 +66,9 @@ func ChildMain() {
 		fmt.Fprintf(pf, "%s %d\n", s, i)
 		pmu.Unlock()
 	}
+
+	// no garbage collection while the batch runs: a socket that is only closed by a finalizer is a leak
+	debug.SetGCPercent(-1)
 
 	// warm-up: a correct conversation, so that lazily created runtime descriptors exist
 	warm := &Script{Cfg: Cfg{Proto: 3, RTms: 1000}, Medias: []MediaSpec{{Control: "trackID=0", Codec: "h264"}},
